@@ -138,11 +138,13 @@ func (e *c01qEnv) run(c c01qCase) (key, what string, reached bool) {
 // value by the same validator included — and claim(X), a peer's +2/3 claim for X (which makes the set keep conflicting votes
 // for X). Judged after every operation, one direction only (what safety needs): a value the set reports as having +2/3 really
 // has it among the DISTINCT validators whose vote for that value was delivered; nobody is listed for a value it never voted
-// for; "+2/3 of any" is backed by distinct voters.
+// for; "+2/3 of any" is backed by distinct voters. A further operation is a vote that carries its signer's address and signature
+// but another validator's index: it must never be admitted.
 
 type c01qOp struct {
 	V    int `json:"v"` // validator (by key); -1: peer claim
 	What int `json:"x"` // 1 A, 2 B, 3 nil, 4 A' (the hash of A with another part-set header: a different value)
+	As   int `json:"as,omitempty"` // k+1: the vote carries V's own address and signature but the index of validator k (a forged slot)
 }
 
 type c01qSeqCase struct {
@@ -182,6 +184,14 @@ func (e *c01qEnv) runSeq(c c01qSeqCase) (key, what string, nontrivial bool) {
 			_ = set.SetPeerMaj23("verif-peer", e.blocks[op.What-1])
 			nontrivial = true
 		} else {
+			if op.As > 0 {
+				// signed by V, placed in somebody else's slot: must never be admitted (nor counted: the oracles below)
+				nontrivial = true
+				if added, _ := set.AddVote(e.vote(op.V, idxOf[op.As-1], typ, op.What)); added {
+					return "types/vote_set.go:addVote:vote-admitted-in-another-validators-slot", fmt.Sprintf("step %d of %v: validator key %d's vote was added under the index of validator key %d", step, c.Ops, op.V, op.As-1), nontrivial
+				}
+				continue
+			}
 			_, _ = set.AddVote(e.vote(op.V, idxOf[op.V], typ, op.What)) // conflicting / duplicate deliveries may be refused: both fine
 			if voted[op.What][op.V] || (anyVoted[op.V] && !voted[op.What][op.V]) {
 				nontrivial = true
@@ -381,6 +391,10 @@ func TestVerifC01Quorum(t *testing.T) {
 		}
 		alpha = append(alpha, c01qOp{V: -1, What: 1}, c01qOp{V: -1, What: 2})
 		alpha = append(alpha, c01qOp{V: n - 1, What: 4}) // one validator votes for the hash of A with another part-set header
+		if n == 3 || vr.Thorough() {
+			// the last validator's vote for A under the indices of the first two
+			alpha = append(alpha, c01qOp{V: n - 1, What: 1, As: 1}, c01qOp{V: n - 1, What: 1, As: 2})
+		}
 		seq := make([]c01qOp, 0, maxLen)
 		stop := false
 		var rec func()
